@@ -121,6 +121,15 @@ def discrete_stage(st, tier, seed, binary, tag, ncases=None, extra_cases=None, g
                 c.id, k, ' '.join(op[0]) if op else '?', ' '.join(op[1]) if op else '?', m)))
     if st in ('hllc', 'hll'):
         aux_relerr(sg, tcs, src)
+    if st == 'td':
+        # the logged ScaleFunction calls and merge limits, replayed on Model/Scale.v
+        sc = corr.scale_cases(tcs)
+        dis, _, errs = corr.model_check('scale', sc, tag + 'sc')
+        sg.errors += errs
+        sg.dist['scale_calls_replayed'] = sum(len(c.ops) for c in sc)
+        for c, kk, m in dis:
+            op = c.ops[kk] if 0 <= kk < len(c.ops) else None
+            sg.disagree.append((src.get(c.id), 'case %s scale-function call %s: implementation=%s model=%s' % (c.id, ' '.join(op[0]) if op else '?', ' '.join(op[1]) if op else '?', m)))
     for tc in tcs[:2] + tcs[-1:]:
         sg.samples.append({'structure': st, 'case': tc.id, 'cfg': tc.cfg, 'ops': [' '.join(o[0]) + ' => ' + ' '.join(o[1]) for o in tc.ops[:12]]})
     sg.rule = ('cases from tools/gen.py (one PRNG seeded by VERIF_SEED) plus the corpus; a case is non-trivial when it has >= 3 ops and '
